@@ -1,16 +1,21 @@
 #!/bin/bash
 # tools/run_seeded.sh [tier]: every seeded change under seeded/ must make the check of the property it breaks report a
-# VIOLATION (and demo.py fail); the unchanged tree must not.  /repo is restored after every trial.
+# VIOLATION (and demo.py fail); the unchanged tree must not.  The changes are applied in ONE scratch worktree of /repo's
+# HEAD (outside /repo and /verif, removed at the end; the checks are pointed at it with ALGOPY_REPO), so /repo itself is
+# never modified and checks may run against /repo at the same time.  Honours VERIF_SEED.
 cd "$(dirname "$0")/.."
 TIER="${1:-quick}"
+if ! git -C /repo diff --quiet; then echo "/repo has uncommitted changes (the scratch worktree is taken from HEAD)"; exit 2; fi
+WT=$(mktemp -d /tmp/seeded_wt_XXXXXX); rmdir "$WT"
+git -C /repo worktree add --detach "$WT" HEAD -q || exit 2
+trap 'git -C /repo worktree remove --force "$WT"; git -C /repo worktree prune; rm -f /tmp/seeded_$$.log /tmp/seeded_demo_$$.py; rm -rf /tmp/seeded_ev_$$' EXIT
 for d in seeded/*/; do
   id=$(basename $d); prop=$(python3 -c "import json;print(json.load(open('$d/meta.json'))['breaks_property'])")
-  if ! git -C /repo diff --quiet; then echo "/repo dirty"; exit 2; fi
-  git -C /repo apply "$(pwd)/$d/patch.diff" || { echo "$id: patch does not apply"; continue; }
-  VERIF_EVIDENCE_DIR=/tmp/seeded_ev_$$ ./check $prop --tier $TIER --no-proof > /tmp/seeded_$$.log 2>&1; rc=$?
-  /venv/bin/python -B $d/demo.py > /dev/null 2>&1; drc=$?
-  git -C /repo checkout -- .
+  git -C "$WT" checkout -q -- .
+  git -C "$WT" apply "$(pwd)/$d/patch.diff" || { echo "$id: patch does not apply"; continue; }
+  ALGOPY_REPO="$WT" VERIF_EVIDENCE_DIR=/tmp/seeded_ev_$$ ./check $prop --tier $TIER --no-proof > /tmp/seeded_$$.log 2>&1; rc=$?
+  sed "s#/repo#$WT#g" $d/demo.py > /tmp/seeded_demo_$$.py
+  /venv/bin/python -B /tmp/seeded_demo_$$.py > /dev/null 2>&1; drc=$?
   if [ $rc -eq 1 ] && grep -q "VIOLATION property=$prop" /tmp/seeded_$$.log; then r=CAUGHT; else r="MISSED(rc=$rc)"; fi
   echo "$id  breaks=$prop  check=$r  demo_exit_with_change=$drc"
 done
-rm -f /tmp/seeded_$$.log
